@@ -109,6 +109,35 @@ Section Ingest.
         end
     end.
 
+  (** DevOutThread.run, the loop body: [data = read(); if data is not None: ingest(data)].
+      A read result is [None] (the transports' select() timeout) or bytes ([Some []] = b''),
+      which goes through [ingest] like any other chunk.  The loop ends when read() raises
+      WhadDeviceNotReady / WhadDeviceDisconnected (end of the list); an exception leaving
+      [ingest] leaves [run] too: nothing more is read. *)
+  Definition run_step (st : state) (r : option bytes) : loop_result :=
+    match r with
+    | None => Done [] st
+    | Some data => ingest st data
+    end.
+
+  Fixpoint run_loop (st : state) (reads : list (option bytes)) : loop_result :=
+    match reads with
+    | [] => Done [] st
+    | r :: rs =>
+        match st with
+        | Dead => Done [] Dead
+        | Live _ =>
+            match run_step st r with
+            | OutOfFuel => OutOfFuel
+            | Done o1 st1 =>
+                match run_loop st1 rs with
+                | OutOfFuel => OutOfFuel
+                | Done o2 st2 => Done (o1 ++ o2) st2
+                end
+            end
+        end
+    end.
+
   (** What [parse]/[put_message] make of a sequence of payloads: messages in order;
       [true] = an exception escaped at some payload (nothing after it is seen). *)
   Fixpoint dispatch (ps : list payload) : list msgid * bool :=
@@ -210,21 +239,29 @@ Fixpoint msgs_eqb (a b : list msgid) : bool :=
 Definition obs_eqb (a b : list msgid * bool) : bool :=
   msgs_eqb (fst a) (fst b) && Bool.eqb (snd a) (snd b).
 
-(** case: (parse table, chunks fed in order, observed put_message arguments,
-    did an exception escape ingest).  Both the transcribed loops and the declarative
-    specification must reproduce the observation. *)
-Definition check_case (c : table * list bytes * list msgid * bool) : bool :=
-  let '(t, chunks, outs, raised) := c in
-  match observe (run (table_parse t) (Live []) chunks) with
+(** The bytes a schedule of read() results carries: [None] reads carry nothing. *)
+Definition chunks_of (reads : list (option bytes)) : list bytes :=
+  flat_map (fun r => match r with None => [] | Some b => [b] end) reads.
+(** ... and the reads that carry at least one byte. *)
+Definition nonempty_data (reads : list (option bytes)) : list bytes :=
+  filter (fun b => negb (length b =? 0)) (chunks_of reads).
+
+(** case: (parse table, read() results in order ([None] / bytes, possibly empty), observed
+    put_message arguments, did an exception escape run).  Both the transcribed loops and
+    the declarative specification must reproduce the observation. *)
+Definition check_case (c : table * list (option bytes) * list msgid * bool) : bool :=
+  let '(t, reads, outs, raised) := c in
+  match observe (run_loop (table_parse t) (Live []) reads) with
   | Some o =>
       obs_eqb o (outs, raised)
-      && obs_eqb (dispatch (table_parse t) (deliver (concat chunks))) (outs, raised)
+      && obs_eqb (dispatch (table_parse t) (deliver (concat (chunks_of reads)))) (outs, raised)
   | None => false
   end.
 
 (** A stream and several ways of cutting it into read() chunks that all produced the
     same observation on the implementation. *)
-Inductive chunking := Sizes (l : list N) | Every (k : N).
+(** [Reads]: explicit schedule, [Some n] = a read of n bytes (0: b''), [None] = read() gave None *)
+Inductive chunking := Sizes (l : list N) | Every (k : N) | Reads (l : list (option N)).
 
 Fixpoint split_sizes (sizes : list N) (s : bytes) : list bytes :=
   match sizes with
@@ -238,10 +275,18 @@ Fixpoint split_every (fuel k : nat) (s : bytes) : list bytes :=
   | S f => match s with [] => [] | _ => firstn k s :: split_every f k (skipn k s) end
   end.
 
-Definition apply_chunking (c : chunking) (s : bytes) : list bytes :=
+Fixpoint split_reads (rs : list (option N)) (s : bytes) : list (option bytes) :=
+  match rs with
+  | [] => match s with [] => [] | _ => [Some s] end
+  | None :: r => None :: split_reads r s
+  | Some n :: r => Some (firstn (N.to_nat n) s) :: split_reads r (skipn (N.to_nat n) s)
+  end.
+
+Definition apply_chunking (c : chunking) (s : bytes) : list (option bytes) :=
   match c with
-  | Sizes l => split_sizes l s
-  | Every k => split_every (length s) (N.to_nat k) s
+  | Sizes l => map Some (split_sizes l s)
+  | Every k => map Some (split_every (length s) (N.to_nat k) s)
+  | Reads l => split_reads l s
   end.
 
 (** Long byte strings (payloads, messages) are given as slices of the stream itself. *)
